@@ -111,6 +111,7 @@ func runC19(c *core.Ctx) {
 	c.RuleDoc("R19.4", "no invoke / lock-acquiring call while the blob mutex may be held")
 	c.RuleDoc("R19.5", "store to data field is followed by atomic length mirror")
 	c.RuleDoc("R19.11", "no Blob method returns a package-level (shared) blob")
+	c.RuleDoc("R19.15", "a caller-sized allocation under the blob mutex is survivable (deferred Unlock + recover)")
 	c.RuleDoc("R19.14", "View and Slice of one blob type refuse the same arguments")
 	c.RuleDoc("R19.13", "no method of the slice-backed blob returns with its mutex held")
 	c.RuleDoc("R19.12", "the typed-array blob repeats each mutation on its Go-side cache with the same arguments")
@@ -150,6 +151,7 @@ func runC19(c *core.Ctx) {
 				r19NoPanic(c, p, sh)
 				r19NoLockLeak(c, p, sh, "R19.13")
 				r19ViewSliceAgree(c, p, sh)
+				r19AllocUnderDeferredUnlock(c, p, sh)
 				if refGuards == nil {
 					refGuards = guardSets(sh)
 				}
@@ -181,6 +183,7 @@ func runC19(c *core.Ctx) {
 	c.Floor("R19.12", 3)
 	c.Floor("R19.13", 4)
 	c.Floor("R19.14", 1)
+	c.Floor("R19.15", 1)
 }
 
 var blobOps = []string{"View", "Slice", "Set", "Grow", "Truncate"}
@@ -1323,4 +1326,99 @@ func r19ViewSliceAgree(c *core.Ctx, p *load.Program, sh *blobShape) {
 	same := strings.Join(v, ";") == strings.Join(s, ";")
 	c.Check(same && len(v) > 0, "R19.14", key, p.Pos(sh.named.Obj().Pos()), "View and Slice have the same error guards: "+strings.Join(v, "; "),
 		fmt.Sprintf("%s: View refuses {%s}, Slice refuses {%s}: the two select the same bytes and must accept the same ranges — one of them is off by one at a boundary (View(len, len) is the empty view at the end of the blob)", typeKey(sh.named), strings.Join(v, "; "), strings.Join(s, "; ")))
+}
+
+// r19AllocUnderDeferredUnlock (R19.15): a method of the slice-backed blob that allocates with a size its caller
+// controls (make/append fed by a parameter) while holding the mutex releases the mutex with a DEFERRED Unlock and turns
+// the runtime's allocation panic into an error (a deferred closure calling recover): `make([]byte, 1<<62)` panics
+// with "len out of range" — with an explicit Unlock after it the mutex stays locked for ever, and every handle of the
+// file blocks; without the recover the out-of-range argument panics instead of being answered with an error.
+func r19AllocUnderDeferredUnlock(c *core.Ctx, p *load.Program, sh *blobShape) {
+	tk := typeKey(sh.named)
+	var names []string
+	for n := range sh.methods {
+		names = append(names, n)
+	}
+	sort.Strings(names)
+	for _, mn := range names {
+		fn := sh.methods[mn]
+		if fn == nil || fn.Blocks == nil {
+			continue
+		}
+		// a MakeSlice whose length IS a parameter (not a difference bounded by the checked length), executed while the
+		// mutex may be held — in the method itself or in a module function it calls with that parameter under the lock
+		ls := ssax.Locksets(fn, false, nil)
+		var alloc *ssa.MakeSlice
+		var allocFn *ssa.Function
+		isParam := func(v ssa.Value) (*ssa.Parameter, bool) {
+			v = stripConv(v)
+			// a parameter captured by a deferred closure lives in a cell: the load of a cell whose only store is the parameter
+			if u, ok := v.(*ssa.UnOp); ok && u.Op == token.MUL {
+				if a, ok := u.X.(*ssa.Alloc); ok {
+					if stores, _ := ssax.CellStores(a); len(stores) == 1 {
+						v = stripConv(stores[0].Val)
+					}
+				}
+			}
+			pp, ok := v.(*ssa.Parameter)
+			return pp, ok
+		}
+		ssax.Instrs(fn, func(ins ssa.Instruction) {
+			if len(ls[ins]) == 0 {
+				return
+			}
+			switch x := ins.(type) {
+			case *ssa.MakeSlice:
+				if _, ok := isParam(x.Len); ok {
+					alloc, allocFn = x, fn
+				}
+			case *ssa.Call:
+				callee := ssax.StaticCallee(x)
+				if callee == nil || !p.InModule(callee) || callee.Blocks == nil {
+					return
+				}
+				for ai, a := range x.Call.Args {
+					if _, ok := isParam(a); !ok || ai >= len(callee.Params) {
+						continue
+					}
+					ssax.Instrs(callee, func(i2 ssa.Instruction) {
+						if ms, ok := i2.(*ssa.MakeSlice); ok {
+							if pp, ok := isParam(ms.Len); ok && pp == callee.Params[ai] {
+								alloc, allocFn = ms, callee
+							}
+						}
+					})
+				}
+			}
+		})
+		if alloc == nil {
+			continue
+		}
+		deferredUnlock, recovers := false, false
+		ssax.Instrs(fn, func(ins ssa.Instruction) {
+			if d, ok := ins.(*ssa.Defer); ok {
+				if op, _ := ssax.MutexOp(d); op == ssax.OpUnlock || op == ssax.OpRUnlock {
+					deferredUnlock = true
+				}
+			}
+		})
+		ssax.Instrs(allocFn, func(ins ssa.Instruction) {
+			d, ok := ins.(*ssa.Defer)
+			if !ok {
+				return
+			}
+			if mc, ok := d.Call.Value.(*ssa.MakeClosure); ok {
+				ssax.Instrs(mc.Fn.(*ssa.Function), func(i2 ssa.Instruction) {
+					if cl, ok := i2.(*ssa.Call); ok {
+						if b, ok := cl.Call.Value.(*ssa.Builtin); ok && b.Name() == "recover" {
+							recovers = true
+						}
+					}
+				})
+			}
+		})
+		key := tk + "." + mn + "|caller-sized-allocation-under-the-lock-is-survivable"
+		c.Check(deferredUnlock && recovers, "R19.15", key, p.Pos(alloc.Pos()), "the mutex is released by a deferred Unlock and the allocation panic is recovered into an error",
+			fmt.Sprintf("%s.%s allocates a slice whose size the caller controls while holding the blob's mutex (deferred Unlock: %v, recover: %v): for a size the runtime cannot serve (Truncate(1<<62) on a handle grows by that much) make panics — the out-of-range argument panics instead of returning an error, and with an explicit Unlock the mutex stays locked, so every later operation on the file blocks for ever", tk, mn, deferredUnlock, recovers))
+	}
 }
